@@ -14,8 +14,12 @@
 //! Pool configuration happens in the `Config` type, which allows for setting the maximum idle duration of a connection,
 //! and the maximum number of idle connections per host.
 
+#[cfg(not(feature = "verif-hooks"))]
 use std::collections::HashMap;
+#[cfg(not(feature = "verif-hooks"))]
 use std::collections::HashSet;
+#[cfg(feature = "verif-hooks")]
+use crate::verif_hooks::det::{HashMap, HashSet};
 use std::collections::VecDeque;
 use std::fmt;
 use std::ops::Deref;
@@ -351,9 +355,18 @@ where
     fn new(config: Config) -> Self {
         Self {
             config,
+            #[cfg(not(feature = "verif-hooks"))]
             connecting: HashSet::new(),
+            #[cfg(not(feature = "verif-hooks"))]
             waiting: HashMap::new(),
+            #[cfg(not(feature = "verif-hooks"))]
             idle: HashMap::new(),
+            #[cfg(feature = "verif-hooks")]
+            connecting: Default::default(),
+            #[cfg(feature = "verif-hooks")]
+            waiting: Default::default(),
+            #[cfg(feature = "verif-hooks")]
+            idle: Default::default(),
         }
     }
 
